@@ -179,6 +179,7 @@ FamDotUse == {"lit", "var", "bin", "dot", "dotcall", "dotcopy", "let", "exprstmt
 FamScopeMod == {"lit", "var", "bin", "module", "dot", "letuse", "outerref"}
 FamScopeFn == {"lit", "var", "bin", "func", "fmt1", "letuse", "leakref", "fwdref", "let", "call"}
 FamRebind == {"lit", "var", "bin", "let", "badlet", "reserved", "tuple"}
+FamRebind3 == {"lit", "var", "bin", "let", "badlet", "reserved"}       \* three statements of one node each
 FamBind == {"lit", "var", "bin", "func", "call", "fmt1", "module", "copy", "let", "badlet", "reserved", "tuple"}
 FamSim == {"lit", "var", "bin", "not", "let", "exprstmt", "list", "tuple", "dot", "copy", "self", "in", "is",
            "select", "func", "call", "badcall", "module", "fop", "fmt", "fmtbad", "fmt1", "range", "cast", "fail",
